@@ -106,6 +106,10 @@ func (c *FakeConn) ReadFrom(b []byte) (int, net.Addr, error) {
 
 var ErrInjectedWriteFailure = errors.New("simnet: injected write failure")
 
+// ErrShortWrite, returned by a hook, makes WriteTo report that only half of the datagram was
+// written, with a nil error (what a PacketConn is allowed to do).
+var ErrShortWrite = errors.New("simnet: short write")
+
 func (c *FakeConn) WriteTo(b []byte, addr net.Addr) (int, error) {
 	ua, ok := addr.(*net.UDPAddr)
 	if !ok {
@@ -137,6 +141,9 @@ func (c *FakeConn) WriteTo(b []byte, addr net.Addr) (int, error) {
 	}
 	c.mu.Unlock()
 	c.cond.Broadcast()
+	if err == ErrShortWrite {
+		return len(b) / 2, nil
+	}
 	if err != nil {
 		return 0, err
 	}
